@@ -176,9 +176,17 @@ fn main() {
         }
         "vh-mark" => {
             // vh-mark ID STATUS [anything...]
+            // STATUS may be `sigN`: the helper then ends by signal N
             let status: i32 = sargs.get(1).and_then(|s| s.parse().ok()).unwrap_or(0);
             let rec = format!("{{{}}}", common_fields("mark", &rest, &own_fds));
             append_record(&rec);
+            if let Some(n) = sargs.get(1).and_then(|s| s.strip_prefix("sig")).and_then(|n| n.parse::<i32>().ok()) {
+                unsafe {
+                    libc::signal(n, libc::SIG_DFL);
+                    libc::kill(libc::getpid(), n);
+                }
+                std::thread::sleep(std::time::Duration::from_secs(5));
+            }
             std::process::exit(status);
         }
         "vh-io" => {
